@@ -210,6 +210,32 @@ def rule_join_discipline(chk, rid):
                               "other branch never established" % ln, detail=d, loc="%s:%s" % (b.file, ln))
         if not sinks:
             chk.fail_closed(rid, "LocalEnv::merge: no binding sink found")
+        # every binding present on both sides goes through Details::merge: from the `Some` edge of the lookup in self.bindings no path returns to
+        # the loop head (or leaves the function) without a Details::merge call
+        merge_bbs = [bb for bb, t in b.calls() if b.callee(t) == DETAILS_MERGE]
+        lookups = [(bb, t) for bb, t in b.calls() if re.search(r"HashMap::<K, V, S(, A)?>::get_mut(::<.*>)?$|HashMap::<K, V, S(, A)?>::get(::<.*>)?$", b.callee(t))]
+        found = False
+        for sbb, place, adt, tg, other in cfgq.discr_switches_on(facts, b, lambda p_, a_: a_ == "std::option::Option"):
+            chain = cfgq.ref_chain(b, place["l"])
+            if not any(cfgq.single_def(b, x) and cfgq.single_def(b, x)[0] == "call" and any(cfgq.single_def(b, x)[1] == lb for lb, lt in lookups) for x in chain):
+                continue
+            some_t = tg.get("Some", other)
+            if some_t is None:
+                continue
+            found = True
+            # blocks reachable from the Some edge without passing a merge call
+            free = b.reachable_from_edges([some_t], avoid=merge_bbs)
+            # escaping = reaching the loop's iterator `next` call again or a return, merge-free
+            escapes = [x for x in free if b.term(x)["k"] == "return" or (b.term(x)["k"] == "call" and re.search(r"Iterator>::next$", b.callee(b.term(x))))]
+            d = {"fn": name, "clause": "binding present on both sides is always merged", "merge_free_escape_blocks": escapes[:3]}
+            chk.instance(rid, d, ok=not escapes)
+            if escapes:
+                chk.violation(rid, b.file, name, "shared binding can skip Details::merge",
+                              "LocalEnv::merge can keep a binding that exists on both sides without calling Details::merge (a path from the `Some` edge of the "
+                              "lookup back to the loop skips it): the merged state keeps one side's constant/type, e.g. `x = 0; if .a == 3 { x = 2 }; 10 / x` "
+                              "is folded with x = 0", detail=d)
+        if not found:
+            chk.fail_closed(rid, "LocalEnv::merge: the lookup of the other side's identifier in self.bindings was not found")
     name = "compiler::state::ExternalEnv::merge"
     b = chk.anchor(name, rid)
     if b is not None:
